@@ -20,8 +20,8 @@ SPEC = {
                   "computation; bit assignments, channel capacity and the operstate table are tied to the extracted source facts. "
                   "The model is tied to the real netstate.Watcher by differential runs through the injected watch hook.",
     "level_note": "Trusted: Coq kernel + vm_compute; goextract; the Go driver. Partial: 'subscribing concurrently with notification "
-                  "is safe' is the RWMutex, atomic in the model; the thorough tier runs concurrent Subscribe/notify/end under -race "
-                  "(a test). Go map iteration order across different subscribers is not modelled (each subscriber's own channel is).",
+                  "is safe' is the RWMutex, atomic in the model; both tiers run Subscribe concurrently with a watcher that is inside notify practically all the time "
+                  "(watchdog), the thorough tier additionally concurrent Subscribe/notify/end under -race (tests). Go map iteration order across different subscribers is not modelled (each subscriber's own channel is).",
     "drivers": [
         {"pkg": "internal/netstate", "test": "TestVerifC19", "timeout": 900},
         {"pkg": "internal/netstate", "test": "TestVerifC19Race", "timeout": 900, "race": True, "tiers": ["thorough"]},
@@ -35,7 +35,10 @@ SPEC = {
             "out-of-range change values, two channels under one mask); (4) random histories (1-3 interfaces, up to 7 subscribers "
             "subscribing before / during / after the watch, bursts of 0-6 changes per interface, receive bursts of 0-10, 35% with "
             "nobody receiving before the end, 30% never ended); (5) operStateChange on all 256 operstate values and process() on "
-            "random rtnetlink message lists. Observation is per subscriber channel. Non-trivial: some subscriber received a change "
+            "random rtnetlink message lists; (6) quick tier too, no race detector: the hook delivers batches touching 256 interfaces back to back "
+            "while four goroutines Subscribe (two in a tight loop on new interface names, two paced on touched interfaces); every Subscribe must "
+            "return, the hook must keep delivering, Watch must end and close every channel within 5 s of real time (a blocked watcher is an "
+            "implementation violation; a runtime abort such as 'concurrent map writes' is reported as a failed driver run). Observation is per subscriber channel. Non-trivial: some subscriber received a change "
             "or observed its channel closed (for operstate: a recognised value); distinct by canonical input.",
     "nontrivial": _nontrivial,
     "trusted": ["Go channel semantics (buffered FIFO, non-blocking select send, close) and sync.RWMutex are modelled, not verified",
